@@ -326,7 +326,7 @@ func RewardScenario(o RewardOpts) *engine.Scenario {
 				}
 			}
 		}
-		out = append(out, End(ctx.BlockHeight()))
+		out = append(out, End(ctx.BlockHeight()), RegenesisOp())
 		return out
 	}
 	return sc
